@@ -435,6 +435,21 @@ def collocation_clauses(out, sub, cx):
     return mats, cond
 
 
+def basis_breaks(bf):
+    """breakpoints of one basis object of a grid: its knots; for the not-a-knot B-splines only the knots of the support
+    (index .. index+p+1 by definition of a B-spline, plus the supports of the two boundary splines a modified function
+    may add) - a deep GlobalBSplineGrid tree has 2^level knots per level and the quadrature would visit every cell"""
+    kn = [float(t) for t in bf.knots]
+    if hasattr(bf, "startIndex") and hasattr(bf, "endIndex") and len(kn) > 64:
+        idx = set(range(int(bf.startIndex), int(bf.endIndex) + 1))
+        if hasattr(bf, "spline2"):
+            idx |= set(range(0, int(bf.p) + 2))
+        if hasattr(bf, "spline3"):
+            idx |= set(range(2 ** int(bf.level), 2 ** int(bf.level) + int(bf.p) + 2))
+        return [kn[i] for i in sorted(idx) if 0 <= i < len(kn)]
+    return kn
+
+
 def weight_clause(out, sub, cx, rng, count=4):
     """stored basis integrals (grid.weights) == numerical quadrature of the basis values over the area"""
     relmax = 0.0
@@ -450,7 +465,7 @@ def weight_clause(out, sub, cx, rng, count=4):
         idx = sorted(set(int(t) for t in rng.integers(0, n, size=min(count, n))))
         for j in idx:
             bf = cx.grid.get_basis(d, j)
-            ref = ref_quad(bf, [float(t) for t in bf.knots], lo, hi)
+            ref = ref_quad(bf, basis_breaks(bf), lo, hi)
             sc = max(hi - lo, abs(ref))
             rel = abs(w[j] - ref) / sc
             relmax = max(relmax, rel)
@@ -1275,13 +1290,13 @@ def _selftest_library():
 
 SUBS = [
     Sub("roundtrip_local", roundtrip_local_strategy, run_roundtrip_local, dict(quick=1600, thorough=20000),
-        budget_s=dict(quick=9, thorough=130), fixed_cases=local_fixed),
+        budget_s=dict(quick=9, thorough=120), fixed_cases=local_fixed, case_timeout=60),
     Sub("roundtrip_global", roundtrip_global_strategy, run_roundtrip_global, dict(quick=2400, thorough=30000),
-        budget_s=dict(quick=10, thorough=160), fixed_cases=roundtrip_fixed),
+        budget_s=dict(quick=10, thorough=140), fixed_cases=roundtrip_fixed, case_timeout=60),
     Sub("polynomials", polynomials_strategy, run_polynomials, dict(quick=2400, thorough=30000),
-        budget_s=dict(quick=9, thorough=130)),
+        budget_s=dict(quick=9, thorough=120), case_timeout=60),
     Sub("interpolate_grid", interpolate_grid_strategy, run_interpolate_grid, dict(quick=320, thorough=3200),
-        budget_s=dict(quick=6, thorough=40)),
+        budget_s=dict(quick=6, thorough=30), case_timeout=60),
     Sub("basis", basis_strategy, run_basis, dict(quick=6400, thorough=80000),
-        budget_s=dict(quick=7, thorough=100)),
+        budget_s=dict(quick=7, thorough=90), case_timeout=60),
 ]
